@@ -163,6 +163,7 @@ Judge(s, e) ==
           ELSE IF u.Rx # s.Rx \/ u.RS # s.RS THEN "reaction_changed_by_application"
           ELSE "ok"
      ELSE IF e.obs.exc # None THEN "exception"
+     ELSE IF e.obs.rebased THEN "operand_rebased_in_place"          \* a reaction object still held by a slot changed its basis
      ELSE IF ~e.obs.held_agree THEN "set_item_out_of_sync"       \* items obtained earlier and the set disagree on a conversion
      ELSE IF e.op = "reduce" /\ e.obs.reduced_m # ApplyParallel(s.RS.items, s.m) THEN "reduce.not_equivalent"
      ELSE IF e.op = "set_copy" /\ e.obs.reduced_m # ApplySet(s.RS, s.m) THEN "copy.not_equivalent"
